@@ -335,6 +335,16 @@ def B3_reembed(rep, flow: Flow):
         elif isinstance(it, ast.Call) and isinstance(it.func, ast.Name) and it.func.id == "range" and len(it.args) == 1 and isinstance(it.args[0], ast.Call) and \
                 isinstance(it.args[0].func, ast.Name) and it.args[0].func.id == "len" and isinstance(it.args[0].args[0], ast.Name) and isinstance(loop.target, ast.Name):
             idxvar, valvar, listname = loop.target.id, None, it.args[0].args[0].id
+        elif isinstance(it, ast.Call) and isinstance(it.func, ast.Name) and it.func.id == "enumerate" and it.args and isinstance(it.args[0], ast.Call) and isinstance(it.args[0].func, ast.Name) \
+                and it.args[0].func.id in ("sorted", "reversed", "set", "list", "tuple") and it.args[0].args and isinstance(it.args[0].args[0], ast.Name) \
+                and any(isinstance(st, ast.Assign) and isinstance(st.targets[0], ast.Subscript) and isinstance(st.value, ast.Subscript) for st in loop.body):
+            inner = it.args[0]
+            if inner.func.id in ("list", "tuple"):
+                idxvar, valvar, listname = loop.target.elts[0].id, loop.target.elts[1].id, inner.args[0].id
+            else:
+                n += 1
+                rep.finding("B3", f"{A_FITTER}:reembed-order", f"{pyfacts.where(f, loop)}: the re-embedding loop runs over `{ast.unparse(inner)}`: position j of the m-qubit key belongs to the j-th entry of the measured-qubit list AS GIVEN; a reordered list puts the factors on other qubits [{ast.unparse(it)}]")
+                continue
         else:
             continue
         for st in loop.body:
@@ -546,6 +556,8 @@ def W_fitter(rep, flow: Flow, want=("W3", "W4", "W5", "W6", "W7", "S1")):
                 rep.ok("W4", 1, nontrivial="evolve-sign", sample=f"sign = phase of {pyfacts.norm_stmt(c1)} read before the reset")
             else:
                 rep.finding("W4", f"{A_FITTER}:sign-source", f"{pyfacts.where(f, c1)}: with a single evolve the sign must be the phase of the pulled-back Pauli read BEFORE it is reset; it is read {'after the reset' if reads else 'nowhere'}")
+        elif r2 == t1 and not any(i1 < x < i2 for x in phase_reset.get(t1, [])):
+            rep.finding("W4", f"{A_FITTER}:evolve2:signed-input", f"{pyfacts.where(f, c2)}: the pulled-back Pauli `{t1}` is pushed forward again WITH its sign (its phase is not reset between the two evolve calls): R (±P) R^dagger = +Z always, so the sign read from the result is always + [{pyfacts.norm_stmt(c2)}]")
         elif r2 != t1:
             rep.finding("W4", f"{A_FITTER}:evolve2:receiver", f"{pyfacts.where(f, c2)}: the sign is not computed from the reported Pauli [{pyfacts.norm_stmt(c2)}]")
         elif d2 != "push":
@@ -765,6 +777,9 @@ def S2_estimator(rep, flow: Flow):
         raise AnalysisError(f"{A_ESTIMATOR}: expected one loop over the results")
     loop = loops[0]
     rets = [n for n in f.node.body if isinstance(n, ast.Return)]
+    if len(rets) == 1 and isinstance(rets[0].value, ast.BinOp) and isinstance(rets[0].value.op, (ast.FloorDiv, ast.Mod, ast.Mult)):
+        rep.finding("S2", f"{A_ESTIMATOR}:quotient", f"{pyfacts.where(f, rets[0])}: the estimate is `{ast.unparse(rets[0].value)}`; it must be the true quotient estimate / total (floor division rounds every expectation value to -1, 0 or 1) [{pyfacts.norm_stmt(rets[0])}]")
+        return
     if len(rets) != 1 or not (isinstance(rets[0].value, ast.BinOp) and isinstance(rets[0].value.op, ast.Div)):
         raise AnalysisError(f"{A_ESTIMATOR}: return is not a quotient")
     est, tot = ast.unparse(rets[0].value.left), ast.unparse(rets[0].value.right)
